@@ -85,7 +85,8 @@ class C03(Prop):
             'containers; distinct = by source text')
     assumptions = (
         'by-name queries "math"/"displaymath" (also the names of the unnamed '
-        '\\(..\\) / \\[..\\] regions) and \\end{..} strings are not used as queries',
+        '\\(..\\) / \\[..\\] regions) are judged against the raw-tree walk only, not '
+        'against the generator\'s counts; \\end{..} strings are not used as queries',
         'order of find_all is not constrained beyond find == find_all[0]',
         'names that collide with real attributes of the node class are '
         'skipped for attribute access',
@@ -145,8 +146,11 @@ class C03(Prop):
                     full.append(s)
         full = sorted(set(full))[:6]
         listq = [names[:2] + ['nosuchname']] if names else []
+        # the names TexSoup gives to unnamed regions and groups never occur in
+        # the text of their nodes; judged against the raw-tree walk only
+        synthetic = ['displaymath', 'math', '$', '$$', 'BraceGroup', 'BracketGroup']
         for N in nodes:
-            for q in names + ABSENT + listq + full:
+            for q in names + ABSENT + listq + full + synthetic:
                 exp = R.search(N.expr, q)
                 got = N.find_all(q)
                 ctx.count('queries')
